@@ -288,18 +288,21 @@ impl StringDecoder for Unreal2StringDecoder {
         // TODO: There might be a nicer way to do this once string patterns are stable
         //       https://github.com/rust-lang/rust/issues/27721
 
-        // After '0x1b' skip 3 characters (including the '0x1b')
+        // After '0x1b' skip the 3 colour components (any of which may itself be 0x1b)
         let mut char_skip = 0usize;
         let result: String = result
             .chars()
             .filter(|c: &char| {
-                if '\x1b'.eq(c) {
-                    char_skip = 4;
+                if char_skip > 0 {
+                    char_skip -= 1;
                     return false;
                 }
-                char_skip = char_skip.saturating_sub(1);
+                if '\x1b'.eq(c) {
+                    char_skip = 3;
+                    return false;
+                }
 
-                char_skip == 0
+                true
             })
             .collect();
 
